@@ -1,5 +1,6 @@
 """pyvc.builtins_impl -- builtins and builtin-type methods on interpreter values."""
 from __future__ import annotations
+from .core import tid
 import builtins
 import types
 from .core import (z3, PyVal, A, C, VABSENT, VNONE, StringSort, IntSort, BoolSort, SeqPV, EMPTY_VALS, lift, lower,
@@ -26,7 +27,8 @@ def as_hdict(interp, v):
     if isinstance(v, HDict):
         return v
     t = v.t
-    d = HDict(vals=simp(A["vals"](t)), n=simp(A["n"](t)))
+    vv, nn = interp.ctx.dict_view(t)
+    d = HDict(vals=vv, n=nn)
     d.derived = True
     return d
 
@@ -90,7 +92,18 @@ def dict_has_term(interp, d, k):
             return False
         return simp(z3.Or(*[k == z3.StringVal(x) for x in d.py]))
     kt = z3.StringVal(k) if isinstance(k, str) else k
-    return simp(z3.Select(d.vals, kt) != VABSENT)
+    return present_term(interp, d, kt)
+
+
+def present_term(interp, d, kt):
+    """Bool term: key present; instantiates the size invariant (present key => n > 0)."""
+    p = simp(z3.Select(d.vals, kt) != VABSENT)
+    if not z3.is_false(p):
+        key = ("present", tid(p), tid(d.n))
+        if key not in interp.ctx.ghost:
+            interp.ctx.ghost[key] = True
+            interp.ctx.axiom(z3.Implies(p, d.n > 0), "datatype-invariant: a present key makes the dict size positive")
+    return p
 
 
 def dict_get(interp, d, k, default=None, missing_raises=False):
@@ -114,7 +127,7 @@ def dict_get(interp, d, k, default=None, missing_raises=False):
         return default
     kt = z3.StringVal(k) if isinstance(k, str) else k
     sel = simp(z3.Select(d.vals, kt))
-    present = simp(sel != VABSENT)
+    present = present_term(interp, d, kt)
     if interp.ctx.branch(present):
         return value_from_term(interp, sel)
     if missing_raises:
@@ -654,7 +667,7 @@ def b_len(interp, v):
     if isinstance(v, HDict):
         if v.mode == "c":
             return len(v.py)
-        interp.dict_wf(mk_dict(v.vals, v.n))
+        interp.dict_wf(interp.ctx.dict_term(v.vals, v.n))
         return interp.mk("vint", v.n)
     if isinstance(v, HList):
         if v.mode == "c":
@@ -879,6 +892,9 @@ def b_sorted(interp, v, **kw):
     if kw:
         raise Unsupported("sorted with key/reverse")
     v = container(interp, v)
+    if isinstance(v, (HSet, HList, HDict)) and v.mode == "s":
+        # order of a symbolic collection: opaque list (only used for message text in joserfc)
+        return HList(seq=interp.ctx.fresh("sorted", SeqPV))
     items = interp.iter_concrete(v)
     if all(is_plain(x) for x in items):
         try:
